@@ -9,6 +9,9 @@ package main
 import (
 	"bufio"
 	"fmt"
+	"net/netip"
+	"os"
+	"path/filepath"
 	"strings"
 
 	"github.com/AdguardTeam/urlfilter"
@@ -169,11 +172,36 @@ func netIDs(fs []*rules.NetworkRule) string {
 
 // eResults runs the real engines built from content on the batch and renders every result.
 func eResults(content string, web []*rules.Request, dns []*urlfilter.DNSRequest, hosts []string) (out []string) {
+	return eResultsOn("", content, web, dns, hosts)
+}
+
+// eResultsOn: with a non-empty path the list is FILE-backed (the content is written to path first).
+func eResultsOn(path, content string, web []*rules.Request, dns []*urlfilter.DNSRequest, hosts []string) (out []string) {
+	if path != "" {
+		if err := os.WriteFile(path, []byte(content), 0o600); err != nil {
+			panic(err)
+		}
+	}
+	var opened []*filterlist.RuleStorage
+	defer func() {
+		for _, s := range opened {
+			_ = s.Close()
+		}
+	}()
 	mk := func() *filterlist.RuleStorage {
-		s, err := filterlist.NewRuleStorage([]filterlist.RuleList{&filterlist.StringRuleList{ID: 1, RulesText: content}})
+		var l filterlist.RuleList = &filterlist.StringRuleList{ID: 1, RulesText: content}
+		if path != "" {
+			fl, err := filterlist.NewFileRuleList(1, path, false)
+			if err != nil {
+				panic(err)
+			}
+			l = fl
+		}
+		s, err := filterlist.NewRuleStorage([]filterlist.RuleList{l})
 		if err != nil {
 			panic(err)
 		}
+		opened = append(opened, s)
 
 		return s
 	}
@@ -235,11 +263,30 @@ func genC12Crash(r *rng, n int, w *bufio.Writer) {
 		for j := range lines {
 			lines[j] = eGenLine(r)
 		}
+		var aimed *urlfilter.DNSRequest
+		if r.chance(1, 3) {
+			// a rule, and a $badfilter rule that differs from it by one more list-valued modifier ($client,
+			// $ctag, $dnstype, $denyallow, $domain) -- not twins, and comparing them must not crash -- with a
+			// request that satisfies both
+			h := pick(r, poolDomains)
+			extra := pick(r, []string{"client=127.0.0.1", "client=~10.9.9.9", "client=laptop", "ctag=a", "dnstype=A", "denyallow=zz.example"})
+			pair := []string{"||" + h + "^", "||" + h + "^$" + extra + ",badfilter"}
+			if r.chance(1, 2) {
+				pair[0], pair[1] = pair[1], pair[0]
+			}
+			at := r.n(len(lines) + 1)
+			lines = append(lines[:at], append(pair, lines[at:]...)...)
+			aimed = &urlfilter.DNSRequest{Hostname: h, DNSType: 1, ClientIP: netip.MustParseAddr("127.0.0.1"), ClientName: "laptop", SortedClientTags: []string{"a"}}
+		}
 		content := strings.Join(lines, pick(r, []string{"\n", "\n", "\r\n"}))
 		if r.chance(1, 2) {
 			content += "\n"
 		}
 		web, dns, hosts := eBatch(r, lines, 6)
+		if aimed != nil {
+			dns = append(dns, aimed)
+			web = append(web, hostnameRequest(aimed))
+		}
 		where := ""
 		ans := guardStr(func() string {
 			// every line alone: NewRule, then Match / Match(hostname) of what it yields
@@ -368,6 +415,23 @@ func genC12Inert(r *rng, n int, w *bufio.Writer) {
 					diff = ra[k] + " <> " + rb[k]
 
 					return "F"
+				}
+			}
+			if i%3 == 0 {
+				// the same two lists FILE-backed (real temp files): still the same results
+				dir, err := os.MkdirTemp("", "verif-inert")
+				if err != nil {
+					return "T"
+				}
+				defer os.RemoveAll(dir)
+				fa := eResultsOn(filepath.Join(dir, "a.txt"), a, web, dns, hosts)
+				fb := eResultsOn(filepath.Join(dir, "b.txt"), b, web, dns, hosts)
+				for k := range ra {
+					if ra[k] != fa[k] || ra[k] != fb[k] {
+						diff = "file-backed: " + ra[k] + " <> " + fa[k] + " <> " + fb[k]
+
+						return "F"
+					}
 				}
 			}
 
